@@ -277,6 +277,12 @@ impl ZipStreamVisitor for LogVisitor {
 }
 
 fn touch(f: &mut zip::read::ZipFile<'_>, bufs: &[u32], cap: u64) -> u64 {
+    touch2(f, bufs, cap, false)
+}
+
+/// `streamed`: the entry was served by the streaming reader, which refuses encrypted entries, so no
+/// AES exemption from the CRC invariant applies
+fn touch2(f: &mut zip::read::ZipFile<'_>, bufs: &[u32], cap: u64, streamed: bool) -> u64 {
     let mut h = 0u64;
     h = mix(h, f.name().len() as u64);
     h = mix(h, f.name_raw().len() as u64);
@@ -297,7 +303,7 @@ fn touch(f: &mut zip::read::ZipFile<'_>, bufs: &[u32], cap: u64) -> u64 {
     let _ = (lm.year(), lm.month(), lm.day(), lm.hour(), lm.minute(), lm.second(), lm.datepart(), lm.timepart());
     let _ = (f.is_dir(), f.is_file(), f.unix_mode(), f.crc32(), f.extra_data().len(), f.data_start(), f.header_start(), f.central_header_start());
     let declared = f.crc32();
-    let exempt = f.extra_data().windows(2).any(|w| w == [0x01, 0x99]);
+    let exempt = !streamed && f.extra_data().windows(2).any(|w| w == [0x01, 0x99]);
     let (data, err, _) = read_all(f, bufs, cap);
     h = mix(h, data.len() as u64);
     h = mix(h, err.is_some() as u64);
@@ -400,8 +406,8 @@ pub fn drive(img: &[u8], pw: &[u8], bufs: &[u32], ctx: &mut Ctx) -> Result<(u64,
                 Ok(Some(mut f)) => {
                     count += 1;
                     ctx.probe("stream_entry_opened");
-                    if count % 2 == 0 {
-                        sig = mix(sig, touch(&mut f, bufs, cap));
+                    if count % 2 == 0 || len % 3 == 0 {
+                        sig = mix(sig, touch2(&mut f, bufs, cap, true));
                     } else {
                         let _ = f.name().len();
                         let mut b = [0u8; 5];
